@@ -665,10 +665,18 @@ class Molecule(nx.Graph):
 
     def add_node(self, *args, **kwargs):
         super().add_node(*args, **kwargs)
-        if self.max_node:
+        # `max_node` caches the highest node key for `merge_molecule`. It only
+        # stays valid when the new key directly follows it; any other addition
+        # invalidates it, and it gets recomputed when it is needed again.
+        node = args[0] if args else kwargs.get('node_for_adding')
+        if self.max_node is not None and node == self.max_node + 1:
             self.max_node += 1
         else:
-            self.max_node = 0
+            self.max_node = None
+
+    def add_nodes_from(self, nodes_for_adding, **attr):
+        super().add_nodes_from(nodes_for_adding, **attr)
+        self.max_node = None
 
     def merge_molecule(self, molecule):
         """
@@ -702,7 +710,7 @@ class Molecule(nx.Graph):
                 .format(self.nrexcl, molecule.nrexcl)
             )
         if self.nodes():
-            if not self.max_node:
+            if self.max_node is None:
                 # hopefully it is a small graph when this is called.
                 self.max_node = max(self)
 
@@ -959,6 +967,7 @@ class Molecule(nx.Graph):
         get deleted.
         """
         super().remove_node(node)
+        self.max_node = None
         self._remove_interactions_with_node(node)
 
     def remove_nodes_from(self, nodes):
@@ -971,6 +980,7 @@ class Molecule(nx.Graph):
         # `nodes` may be an iterator; it is needed twice.
         nodes = list(nodes)
         super().remove_nodes_from(nodes)
+        self.max_node = None
         for node in nodes:
             self._remove_interactions_with_node(node)
 
